@@ -6,17 +6,22 @@
    * [CLen ctx L o payload]: raw bytes: a fixed prefix that leads the decoder to a length field
      (the context), the declared length L (any i32: negative, i32::MAX, ...) and a payload.
    * [CChunk o size body]: a chunk header "MSGF" with the declared size, followed by [body].
+   * [CVArr nest ety dimsbit L o payload]: the length field of a Variant array of ANY element type
+     (encoding mask ety, with or without the dimensions bit), at top level or nested (in a DataValue,
+     in a Variant inside a Variant, in a DataValue inside a Variant, in the value field of the
+     generated structure WriteValue), followed by [payload] (the harness puts L real elements there).
    No proofs here. *)
 From Coq Require Import List ZArith Bool Lia.
 Import ListNotations.
-From OV Require Export C01.Codec C01.Builtins C01.Types.
+From OV Require Export C01.Codec C01.Builtins C01.Types Gen.C01ServiceTypes.
 From OV Require Import C01.Model.
 Open Scope Z_scope.
 
 Inductive case :=
 | CVal (t : ty) (v : uval) (o : opts)
 | CLen (ctx : Z) (L : Z) (o : opts) (payload : bytes)
-| CChunk (o : opts) (size : Z) (body : bytes).
+| CChunk (o : opts) (size : Z) (body : bytes)
+| CVArr (nest : Z) (ety : Z) (dimsbit : bool) (L : Z) (o : opts) (payload : bytes).
 
 (* which limit a context's length field is checked against *)
 Inductive lim := LStr | LBStr | LArr.
@@ -49,10 +54,25 @@ Definition ctx_spec (ctx : Z) : ctxspec :=
   else if ctx =? 18 then mk_ctx [24; 23; 1; 143; 1; 0; 0; 0] TVar LBStr 1 2 1 false
                                        (* Variant/Variant/DataValue/Variant [ByteString] element *)
   else if ctx =? 19 then mk_ctx [5; 0; 0] (TS 17) LBStr 1 0 0 false         (* NodeId opaque *)
-  else mk_ctx [] (TArr TVar) LArr 1 0 0 false.                              (* read_array<Variant>, items Empty *)
+  else if ctx =? 21 then mk_ctx [] (TS 16) LStr 1 0 0 false                 (* XmlElement *)
+  else if ctx =? 22 then mk_ctx [1] (TS 21) LStr 1 0 0 false                (* LocalizedText locale *)
+  else if ctx =? 23 then mk_ctx [16] TVar LStr 1 0 0 false                  (* Variant(XmlElement) *)
+  else mk_ctx [] (TArr TVar) LArr 1 0 0 false.                              (* 20: read_array<Variant>, items Empty *)
+
+(* nesting of a Variant: (bytes before the Variant's mask byte, decoder, depth locks needed) *)
+Definition nest_spec (nest : Z) : bytes * ty * Z :=
+  if nest =? 1 then ([1], TDV, 1)                                   (* DataValue.value *)
+  else if nest =? 2 then ([24], TVar, 1)                            (* Variant in a Variant *)
+  else if nest =? 3 then ([23; 1], TVar, 1)                         (* DataValue in a Variant *)
+  else if nest =? 4 then ([0; 0; 13; 0; 0; 0; 255; 255; 255; 255; 1], T_WriteValue, 1)
+                                         (* WriteValue{node_id, attribute_id, index_range null, value} *)
+  else ([], TVar, 0).                                               (* 0: top level *)
+Definition varr_mask (ety : Z) (dimsbit : bool) : Z := ety + 128 + (if dimsbit then 64 else 0).
 
 Definition case_bytes (c : case) : bytes :=
   match c with
+  | CVArr nest ety dimsbit L o payload =>
+      fst (fst (nest_spec nest)) ++ [varr_mask ety dimsbit] ++ enc_i 4 L ++ payload
   | CVal t v o => enc_ty t v
   | CLen ctx L o payload => cx_prefix (ctx_spec ctx) ++ enc_i 4 L ++ payload
   | CChunk o size body => [77; 83; 71; 70] ++ enc_u 4 size ++ enc_u 4 1 ++ body
@@ -76,6 +96,7 @@ Definition run (c : case) : list Z :=
                     | CVal t v o => (t, o)
                     | CLen ctx L o _ => (cx_ty (ctx_spec ctx), o)
                     | CChunk o _ _ => (TVar, o)
+                    | CVArr nest _ _ _ o _ => (snd (fst (nest_spec nest)), o)
                     end in
       match Codec.run (dec_ty t o (depth0 o)) bs with
       | Ok (_, rest) => [0; zlen bs - zlen rest]
@@ -116,6 +137,17 @@ Definition oracle (c : case) (out : list Z) : bool :=
       else if payload_ok ctx L payload
            then list_eqb out [0; zlen (cx_prefix s) + 4 + Z.max 0 L * cx_item s]
            else match out with [-2] => false | _ => true end
+  | CVArr nest ety dimsbit L o payload =>
+      (* the Variant array length is checked against max_array_length whatever the element type and
+         whatever the other two limits: above it (or below -1) rejected; an empty / null array of a
+         known element type accepted, consuming exactly the length field; otherwise anything but a panic *)
+      let pre := fst (fst (nest_spec nest)) in
+      if max_depth o <? snd (nest_spec nest) then list_eqb out [-1]
+      else if L <? -1 then list_eqb out [-1]
+      else if L <=? 0 then
+        (if known_ty ety then list_eqb out [0; zlen pre + 5] else list_eqb out [-1])
+      else if max_arr o <? L then list_eqb out [-1]
+      else match out with [-2] => false | _ => true end
   | CChunk o size body =>
       if (0 <? max_msg o) && (max_msg o <? size) then list_eqb out [-3; 12]
       else match out with [0; _; dl] => (dl =? Z.max size 12) | _ => false end
@@ -126,7 +158,9 @@ Definition known (c : case) : Z := 0.
 Definition valid (c : case) : Prop :=
   match c with
   | CVal t v o => wf_ty t v /\ plain o
-  | CLen ctx L o payload => 1 <= ctx <= 20 /\ in_i 4 L /\ plain o /\ Forall is_byte payload
+  | CLen ctx L o payload => 1 <= ctx <= 23 /\ in_i 4 L /\ plain o /\ Forall is_byte payload
                             /\ 0 <= max_str o /\ 0 <= max_bstr o /\ 0 <= max_arr o
   | CChunk o size body => in_u 4 size /\ Forall is_byte body /\ 0 <= max_msg o
+  | CVArr nest ety dimsbit L o payload =>
+      0 <= nest <= 4 /\ 0 <= ety < 64 /\ in_i 4 L /\ plain o /\ Forall is_byte payload
   end.
